@@ -752,9 +752,18 @@ impl DevState {
         r.final_pkt.take()
     }
 
-    /// number of packets waiting in the bulk-in pipe from earlier commands
-    pub fn stale_packets(&self) -> usize {
-        self.pipe.len()
+    /// packets the device has produced and the host has not fetched (oldest first); an
+    /// endless stream of pending acks is reported as its first 1000
+    pub fn unfetched(&self) -> Vec<Vec<u8>> {
+        let mut v: Vec<Vec<u8>> = self.pipe.iter().cloned().collect();
+        let r = &self.resp;
+        for k in r.sent..r.n_pending.min(r.sent.saturating_add(1000)) {
+            v.push(r.pending_override.get(&k).cloned().unwrap_or_else(|| r.pending_pkt.clone()));
+        }
+        if let Some(f) = &r.final_pkt {
+            v.push(f.clone());
+        }
+        v
     }
 
     /// Take (and clear) the wire log.
@@ -1039,7 +1048,7 @@ pub fn wire_stat(wire: &[Wire]) -> WireStat {
             Wire::Send { data, .. } => cur_id = if data.len() >= 12 { Some(le(&data[10..12]) as u16) } else { None },
             Wire::Recv { res: Ok(p), .. } => {
                 if let (Some(id), Some(a)) = (cur_id, decode_ack(p)) {
-                    if a.request_id == id && a.status == STATUS_SUCCESS && a.kind == ACK_PENDING && a.scd.len() >= 4 && le(&a.scd[0..2]) == 0 {
+                    if a.request_id == id && a.status == STATUS_SUCCESS && a.kind == ACK_PENDING && a.scd_len >= 4 && a.scd.len() >= 4 && le(&a.scd[0..2]) == 0 {
                         st.sleeps += 1;
                         st.sleep_ms += le(&a.scd[2..4]);
                     }
